@@ -13,3 +13,4 @@ EXTRA.update({
     "C18": {"technique": "symbolic execution + SMT: one operand free reals, the other from an enumerated lattice family (segments/lines both free where the solver decides it); soundness, completeness per edge and duplicate freedom per path"},
 })
 CLAIMED.update({"C03": "DESIGN 4/C03"})
+CLAIMED.update({"C04": "DESIGN 4/C04"})
